@@ -9,7 +9,7 @@ RULE = ('byte strings up to 64 KiB of six kinds: arbitrary bytes (uniform, print
         'token-level mutations (delete / duplicate / swap / replace, 1-4 per program), every literal of the C09 enumeration '
         '(valid, out of range, overflowing) in every literal context (initial value, expression, subrange and array bounds, '
         'string length, case selector, task interval and priority, repeat count), bracket / call / subscript / statement '
-        'nesting to depth 12 and flat chains (operators, field selectors, subscripts, statements, ELSIF arms) up to the size '
+        'nesting to depth 12, OSCAT description markers in every order and multiplicity up to 4, and flat chains (operators, field selectors, subscripts, statements, ELSIF arms) up to the size '
         'limit, and the repository fixtures with byte-level damage; oracle (implementation only): in-process '
         'tokenize_program / parse_program / analyze / write_to_string each answer ok or a diagnostic — no panic, no abort, no '
         'stack overflow — within the time budget per stage, and `ironplcc tokenize|check|echo` on the same bytes exits 0 or 1 '
@@ -34,7 +34,7 @@ def rand_bytes(rng, n, flavour):
 
 
 def token_soup(rng, lits, n_tokens):
-    words = [l for (v, l, ic) in lits] + ['x', 'y1', '_z', '1', '16#FF', '2#1', '8#7', '1.5', '1.0E5', 'T#1s', 'TOD#1:2:3', 'D#2024-01-01', '%IX1', '%Q*',
+    words = [l for (v, l, ic) in lits] + ['(*@KEY@:DESCRIPTION*)', '(*@KEY@:END_DESCRIPTION*)', 'x', 'y1', '_z', '1', '16#FF', '2#1', '8#7', '1.5', '1.0E5', 'T#1s', 'TOD#1:2:3', 'D#2024-01-01', '%IX1', '%Q*',
                                            "'s'", '"w"', '(* c *)', '\n', '  ', ':=', '=>', '..', '**', '<>', '<=', '>=']
     # long lexemes with multi-byte characters at every offset (messages quote the offending lexeme)
     for n in (3, 10, 19, 20, 21, 38, 39, 40, 41, 42, 79, 80, 81, 200):
@@ -247,6 +247,20 @@ def build_cases(ctx, rng, lits, kws):
         for cname, t in literal_contexts(lit): add('literal:' + cname, t, sub=lit[:24])
     for (ty, lit, exp, kind) in lit_cases[:(60 if q else len(lit_cases))]:
         for cname, t in (literal_contexts(lit) if not q else literal_contexts(lit)[:4]): add('literal:' + cname, t, sub=kind)
+    # OSCAT description markers in every order and multiplicity (up to 4) between the declarations of a small program,
+    # once with layout-only bodies and once with free text between them: the preprocessor scans for them before the lexer
+    import itertools
+    MARK = {'D': '(*@KEY@:DESCRIPTION*)', 'E': '(*@KEY@:END_DESCRIPTION*)'}
+    pieces = ['TYPE\n  t1 : INT(1..2);\nEND_TYPE\n', 'FUNCTION_BLOCK fb1\nVAR\nx : INT;\nEND_VAR\nx := 1;\nEND_FUNCTION_BLOCK\n',
+              'PROGRAM p1\nVAR\ny : INT;\nEND_VAR\ny := 2;\nEND_PROGRAM\n', '', '']
+    for n in range(1, 5):
+        for seq in itertools.product('DE', repeat=n):
+            for body in ('\n', ' free text, not a comment \n'):
+                parts = []
+                for k, m in enumerate(seq):
+                    parts.append(pieces[k]); parts.append(MARK[m] + body)
+                parts.append(pieces[len(seq)])
+                add('oscat-markers', ''.join(parts), sub=''.join(seq))
     for kind in ['if', 'for', 'while', 'repeat', 'case']:
         for d in ([12] if q else range(1, 13)): add('nest:' + kind, nest(d, kind), sub=str(d))
     for kind in ['paren', 'paren-left', 'call', 'subscript', 'unary', 'not', 'bare-paren']:
